@@ -955,6 +955,14 @@ class Facts:
         c = self.find(path)
         if len(c) == 1:
             return c[0]
+        if not c and isinstance(path, str) and path.startswith("<") and "prometheus::" in path:
+            # a trait impl whose type moved to another module of the crate: the same path with the crate-local module prefixes ignored
+            def norm(p_):
+                return re.sub(r"prometheus::(?:[a-z_0-9]+::)*", "prometheus::", p_)
+            want = norm(path)
+            cands = [self.bodies[k] for k in self.order if norm(self.bodies[k].path) == want]
+            if len(cands) == 1:
+                return cands[0]
         if not c and isinstance(path, str) and path.startswith("prometheus::") and not path.startswith("<"):
             # the function may have been moved to another module of the crate: the same item name (`Type::method`, or a free function's name) found exactly once
             segs = strip_generics(path).split("::")
